@@ -56,9 +56,10 @@ func init() {
 		r.Set("universe_size", K+1)
 		r.Set("noop_intervals_checked", o2["noop_checked"])
 		r.Set("transitions_from_17_and_33_class_sets", o2["large_set_transitions"])
+		r.Set("transitions_of_the_size_sweep_1_to_140_classes", o2["size_sweep_transitions"])
 		r.Set("states_reached_through_ast_nodes", o2["states_via_nodes"])
 		r.Set("evaluations", o.Transitions)
-		r.Set("rule", "BFS to closure over the real DisjunctRangeSet: state = List() content, operations = AddRange(f,t) for all f,t in the universe; every transition is an execution of the real AddRange (and, in a second exploration, AddLexTNode with the AST nodes a grammar produces) on a fresh object rebuilt from the shortest path; plus every sequence of two operations over a window of bounds applied to sets that already hold 17 and 33 classes; distinct = distinct reachable class lists")
+		r.Set("rule", "BFS to closure over the real DisjunctRangeSet: state = List() content, operations = AddRange(f,t) for all f,t in the universe; every transition is an execution of the real AddRange (and, in a second exploration, AddLexTNode with the AST nodes a grammar produces) on a fresh object rebuilt from the shortest path; plus every sequence of two operations over a window of bounds applied to sets that already hold 17 and 33 classes; plus sets grown one disjoint range at a time to 140 classes in ascending, descending and middle-out order with four kinds of insertion tried at every size; distinct = distinct reachable class lists")
 		for _, s := range o.Samples {
 			r.Sample(s)
 		}
@@ -95,7 +96,9 @@ func init() {
 		}
 		for _, v := range o.Violations {
 			key := fmt.Sprintf("path=%v op=%v", v["path"], v["op"])
-			v["universe"] = K
+			if _, ok := v["universe"]; !ok {
+				v["universe"] = K
+			}
 			r.Violate("c18", key, fmt.Sprintf("%v: after %v AddRange%v: %v -> %v", v["msg"], v["path"], v["op"], v["old"], v["new"]), v)
 		}
 		return r.Finish(nil)
